@@ -66,6 +66,26 @@ pub fn build_all_explicit(m: &Mol, bonds: &[(usize, usize, f64)]) -> Option<Buil
 /// orders; (b) two aromatic rings of C and N joined by a bond of any order
 pub fn explicit_family(rng: &mut Rng) -> (Mol, Vec<(usize, usize, f64)>) {
     let mut zs: Vec<usize> = vec![]; let mut xs: Vec<[f64; 3]> = vec![]; let mut bonds: Vec<(usize, usize, f64)> = vec![];
+    if rng.chance(0.25) {
+        // two four-coordinate centres of one metal in one molecule, 9 A apart, whose bond-order sums differ (an oxo or imido unit
+        // M(=O)X3 and a plain MX4): what is decided per atom (formal charge, d-count, environment, bend form) is decided per atom
+        let zm = *rng.pick(&[78usize, 46, 28, 45, 77, 27, 79, 29, 26, 44, 22, 25]);
+        let oxo_first = rng.chance(0.5);
+        for unit in 0..2 {
+            let oxo = (unit == 0) == oxo_first;
+            let c = zs.len();
+            let off = [9.0 * unit as f64, 0.3 * unit as f64, 0.0];
+            zs.push(zm); xs.push(off);
+            let geometry = *rng.pick(&["square", "tetrahedral"]);
+            for (k, d) in directions(geometry).iter().enumerate() {
+                let z = if oxo && k == 0 { *rng.pick(&[8usize, 7]) } else { *rng.pick(&[17usize, 9, 35]) };
+                let r = radius(zm) + radius(z);
+                zs.push(z); xs.push([off[0] + d[0] * r + rng.range(-0.03, 0.03), off[1] + d[1] * r + rng.range(-0.03, 0.03), off[2] + d[2] * r + rng.range(-0.03, 0.03)]);
+                bonds.push((c, zs.len() - 1, if oxo && k == 0 { *rng.pick(&[2.0, 3.0]) } else { 1.0 }));
+            }
+        }
+        return (Mol { name: "two-centres-of-one-metal".into(), zs, xs }, bonds);
+    }
     if rng.chance(0.6) {
         zs.push(*rng.pick(&[6usize, 6, 7, 5])); xs.push([0.0, 0.0, 0.0]);
         let pyr = rng.range(0.02, 0.3);
